@@ -82,6 +82,8 @@ class Evaluator(object):
         if isinstance(sv.t, TOpt) and not isinstance(t, (TOpt, TVal, TObj)) and st is not None:
             # flow-sensitive narrowing Opt[T] -> T: the value must be provably not None here
             g = z3.Not(sv.t.is_none(cx, sv.e))
+            if self.guards:
+                g = z3.Implies(z3.And(*self.guards), g)    # inside a short-circuit / conditional expression
             if not self.spec:
                 self.fx.oblig("narrow", st, g, "-", "%s is not None" % what)
             st.assume(g)
